@@ -31,3 +31,13 @@ let () =
                  (str_of_bool n.amn_isdir) (str_of_bool n.amn_archive) (int_of_nat k) (string_of_z n.amn_size)
                  (c15m_skind s) (c15m_rkind r)) steps))
     | _ -> "?args")
+
+let () =
+  register "amo_compress" (function [proto; ctype; binary; size] ->
+      (match amo_archive_compress (n_of_int (int_of_string proto)) (n_of_int (int_of_string ctype)) (bool_of binary)
+               (n_of_int (int_of_string size)) with
+       | AmoCompFixed c -> "fixed:" ^ str_of_bool c
+       | AmoCompProbed c -> "probed:" ^ str_of_bool c
+       | AmoCompErr -> "err")
+    | _ -> "?args")
+
